@@ -224,9 +224,9 @@ def run(tier, seed):
         ti = ac.get("theorem_instances") or {}
         if isinstance(ti, dict) and (ti.get("fail") or ti.get("FAIL")):
             chk.broken("an instance of a proved theorem of Prop_C01_a2a.v evaluates to false", ti)
-        ev = ac.get("evaluator_vs_cpython") or {}
-        if isinstance(ev, dict) and (ev.get("disagree") or ev.get("DISAGREE")):
-            chk.broken("the reference evaluator of M_A2A.v and CPython disagree on the source program", ev)
+        ev = ac.get("evaluator_vs_cpython") or []
+        if ev:
+            chk.broken("the reference evaluator of M_A2A.v and CPython disagree on the source program", ev[:4])
     chk.coverage.update(
         normaliser_layer=a2a_cov,
         translator_layer=texp_cov,
